@@ -32,5 +32,6 @@ contract(
         )
     },
     canaries=["dq_decode(result) == value + 'x'"],
+    domain=dict(alphabet=["$", "{", "\\", '"', "a", "\n", "\r", "}"], max_len=5, max_len_thorough=6),
     props=["C12", "C13"],
 )
